@@ -190,7 +190,7 @@ pub fn execute_e(case: &CaseE, en: &En, record: Option<u64>, obs: &mut Obs) -> R
   // the loop runs what the tree under test makes of the layout as written
   if case.a.written.is_some() { c.layout = case.a.sut_layout()?; }
   let sut_layout = c.layout.clone();
-  let out = catch_unwind(AssertUnwindSafe(|| { let mut bl = crate::wiresim::PipeLayer::new(); crate::loopsim::execute(&c, record, Some(&mut bl)) })).map_err(|e| panic_msg(&e))?;
+  let out = catch_unwind(AssertUnwindSafe(|| { let mut bl = crate::wiresim::PipeLayer::new(c.has_tablet); crate::loopsim::execute(&c, record, Some(&mut bl)) })).map_err(|e| panic_msg(&e))?;
   // a run that hit the simulator's trace cap was cut short by an unplug the history knows nothing
   // about (fast timers under a readiness storm can do that): it is not evaluated
   if out.stats.trace_cap_hit > 0 { return Ok((None, out)); }
